@@ -669,17 +669,25 @@ def _blank_skippers(lx):
     out = {}
     for name, f in lx.functions.items():
         body = [st for st in f.body if not (isinstance(st, ast.Expr) and isinstance(st.value, ast.Constant))]
+        params = [a.arg for a in f.args.args]
+        # the end of the scanned text may be a parameter or computed first as `n = len(<text parameter>)`
+        lens = {}
+        while body and isinstance(body[0], ast.Assign) and len(body[0].targets) == 1 and isinstance(body[0].targets[0], ast.Name) and isinstance(body[0].value, ast.Call) \
+                and isinstance(body[0].value.func, ast.Name) and body[0].value.func.id == "len" and len(body[0].value.args) == 1 and isinstance(body[0].value.args[0], ast.Name) and body[0].value.args[0].id in params:
+            lens[body[0].targets[0].id] = body[0].value.args[0].id
+            body = body[1:]
         if len(body) == 2 and isinstance(body[0], ast.While) and isinstance(body[1], ast.Return) and isinstance(body[1].value, ast.Name) \
                 and any(_is_blank_const(x) for x in ast.walk(body[0].test)):
-            params = [a.arg for a in f.args.args]
             cur = body[1].value.id
             end = None
             for c in ast.walk(body[0].test):
                 if isinstance(c, ast.Compare) and len(c.ops) == 1 and isinstance(c.ops[0], ast.Lt) and isinstance(c.left, ast.Name) and c.left.id == cur and isinstance(c.comparators[0], ast.Name):
                     end = c.comparators[0].id
+                elif isinstance(c, ast.Compare) and len(c.ops) == 1 and isinstance(c.ops[0], ast.Lt) and isinstance(c.left, ast.Name) and c.left.id == cur and S.unparse(c.comparators[0]).startswith("len("):
+                    end = S.unparse(c.comparators[0])
             steps = [a for a in ast.walk(body[0]) if isinstance(a, ast.AugAssign) and isinstance(a.target, ast.Name) and a.target.id == cur and isinstance(a.op, ast.Add) and isinstance(a.value, ast.Constant) and a.value.value == 1]
-            if cur in params and end in params and steps:
-                out[name] = (params.index(cur), params.index(end))
+            if cur in params and steps and (end in params or end in lens or (end or "").startswith("len(")):
+                out[name] = (params.index(cur), params.index(end) if end in params else None)
     return out
 
 
@@ -689,6 +697,16 @@ def _ppline_names(pl, skippers=None):
     for n in ast.walk(pl):
         if isinstance(n, ast.Call) and isinstance(n.func, ast.Name) and n.func.id in (skippers or {}):
             pi, ei = skippers[n.func.id]
+            if ei is None and pi < len(n.args) and isinstance(n.args[pi], ast.Name):
+                # the skipper takes the end of the text itself: the length variable of the scanner is the one its end tests compare the cursor with
+                out["cursor"] = n.args[pi].id
+                for t_ in ast.walk(pl):
+                    if isinstance(t_, ast.Compare) and len(t_.ops) == 1 and isinstance(t_.ops[0], (ast.GtE, ast.Lt)) and isinstance(t_.left, ast.Name) and t_.left.id == out["cursor"] and isinstance(t_.comparators[0], ast.Name):
+                        out["length"] = t_.comparators[0].id
+                f = S.enclosing_function(n)
+                if f is not pl and isinstance(f, ast.FunctionDef):
+                    out["skipper"] = f.name
+                continue
             if pi < len(n.args) and ei < len(n.args) and isinstance(n.args[pi], ast.Name) and isinstance(n.args[ei], ast.Name):
                 out["cursor"], out["length"] = n.args[pi].id, n.args[ei].id
                 f = S.enclosing_function(n)
@@ -752,6 +770,13 @@ def _line_start_sites(lx):
                     continue
                 # evaluate the statements of the block before n: track offsets of names relative to NL
                 env = {nlvar: 0}
+                # `end = n if nl == -1 else nl`: the sanitised copy of the find() result is the newline offset too (or the end of the text, where no line follows)
+                encl_ = S.enclosing_function(n)
+                for sc_ in ([encl_, fn] if encl_ is not None else [fn]):
+                    for a_ in ast.walk(sc_):
+                        if isinstance(a_, ast.Assign) and len(a_.targets) == 1 and isinstance(a_.targets[0], ast.Name) and isinstance(a_.value, ast.IfExp) \
+                                and nlvar in (S.unparse(a_.value.body), S.unparse(a_.value.orelse)) and any(isinstance(x, ast.Name) and x.id == nlvar for x in ast.walk(a_.value.test)):
+                            env.setdefault(a_.targets[0].id, 0)
                 for st in blk[:idx]:
                     _sym_exec(st, env)
                 val = _sym_eval(n.value, env)
